@@ -13,7 +13,9 @@ CLAIMED = {
          'Depth-bounded and start-state-sampled: finds only states within d calls of a sampled start state; hash de-duplication may only lose coverage; x86-64 ASan/UBSan build.'),
  'C18': ('exploration', 'runtime monitoring: differential oracle against OpenSSL i2d/d2i/PEM and br_x509_decoder under ASan/UBSan, generated keys and PEM texts',
          'Encoders, br_skey_decoder, br_pkey_decoder, br_pem_encode and br_pem_decoder are driven with fixture and synthetic keys and every PEM payload length 0..2000 x flags; outputs are compared byte for byte with OpenSSL and with the certificate decoder; malformed armour must raise an error without spurious data. Three documented-vs-actual discrepancies in T0 bytecode are listed in known_findings.json.',
-         'Trusts OpenSSL 3.0 libcrypto encoders as reference; sampled keys; T0 bytecode cannot be regenerated here (no mono).'),
+         'Trusts OpenSSL 3.0 libcrypto encoders as reference; sampled keys; T0 bytecode cannot be regenerated here (no mono).'), 'C02': ('fault_enumeration', 'runtime monitoring: exhaustive single-fault injection on recorded protected streams replayed against a snapshotted receiver, with prefix/rejection oracle; records forged by an independent record layer',
+         'For each of the 75 (suite, version) pairs the real receiver engine is restored to its post-handshake state for every fault: every bit of every record, every record-level edit at every index, truncation at every byte, cross-connection splice, forged CBC records of every padding length (accepted when conformant, rejected for each wrong padding/MAC byte) and forged AEAD records; delivered bytes must be a prefix ending before the first touched record and the engine must be closed with a non-zero error once the touched record is complete. ASan/UBSan and the C06 monitor stay armed.',
+         'Short sessions (3-5 records); single edits plus 200 random double edits per pair; OpenSSL EVP trusted for forging.'),
 }
 
 ENGINES = []
